@@ -54,12 +54,20 @@ def run(ck, ctx):
                       "`some other type` edge to the return answers the WRONGTYPE error and nothing else (Redis answers WRONGTYPE for every "
                       "typed command against a key of another type; an empty/zero/nil answer there hides the key). Re-lookups behind a "
                       "deciding type test of the same key, TYPE-style total matches and MGET (nil by Redis semantics) are the only exceptions")
+    ck.rule("R01.14", "a score is replaced unless it is exactly the stored one: in the sorted set's add path the only branch that leaves an "
+                      "existing member's stored score in place is decided by exact equality of the stored and the incoming f64 (Redis compares "
+                      "scores exactly; a tolerance such as |a-b| < EPSILON keeps 1e-20 when ZADD asks for 2e-20)")
+    ck.rule("R01.15", "sorted-set order is (score numerically, then member bytes): the skiplist comparator orders the two scores with the IEEE "
+                      "partial order (partial_cmp / < / >: -0.0 and 0.0 tie) taken in argument order and breaks ties with the byte order of the "
+                      "members in argument order; no total_cmp / to_bits / integer-cast ordering of scores anywhere in the sorted-set modules")
     for cfg in ctx.configs:
         prog = ctx.prog(cfg)
         ck.configs.append(cfg)
         ck.fn_count += len(prog.fns)
         _r0112(ck, prog, cfg)
         _r0113(ck, prog, cfg, effects.executor_methods(prog))
+        _r0114(ck, prog, cfg)
+        _r0115(ck, prog, cfg)
         meths = effects.executor_methods(prog)
         _r011(ck, prog, cfg, meths)
         _r012(ck, prog, cfg, meths)
@@ -855,6 +863,17 @@ def _r0112(ck, prog, cfg):
                 hi = src_of_operand(g, t["args"][1])
                 if lo.kind == "path" and lo.local is not None and 1 <= lo.local <= g.d["argc"] and hi.kind == "call" and is_callee(hi.term, r"<impl \[.*\]>::len$"):
                     loop_ok = True
+        # iterator form of the same loop: (k_idx..=key.len()).any(|i| self.glob_match(key, pattern, i, ..)) - `any` tests every attempt
+        for b, t in g.calls():
+            if b in region and is_callee(t, r"RangeInclusive<usize> as std::iter::Iterator>::any(::<.*>)?$") and len(t["args"]) >= 2:
+                rng = src_of_operand(g, t["args"][0], through_calls=TRANSPARENT)
+                clo = [c for c in prog.children(g) if any(callee(ct) == g.id for _, ct in c.calls())]
+                if rng.kind == "call" and is_callee(rng.term, r"RangeInclusive::<usize>::new$") and clo:
+                    lo = src_of_operand(g, rng.term["args"][0])
+                    hi = src_of_operand(g, rng.term["args"][1])
+                    if lo.kind == "path" and lo.local is not None and 1 <= lo.local <= g.d["argc"] and hi.kind == "call" and is_callee(hi.term, r"<impl \[.*\]>::len$"):
+                        loop_ok = True
+                        recs = recs + [(cb, ct) for c in clo for cb, ct in c.calls() if callee(ct) == g.id]
         tested = bool(recs) and not direct
         ck.check(tested and loop_ok, "R01.12", "glob_match:star-arm#%d%s" % (k, _tag(cfg)),
                  "the `*` arm of glob_match %s: a star must be tried against every remaining offset of the key and only the *test* of each attempt "
@@ -1007,3 +1026,112 @@ def lib_edge(f, b, value):
 
 def t_ln(f, b):
     return f.term(b)["ln"]
+
+
+# ------------------------------------------------------------------------------------------------
+ZSET = "redis::data::sorted_set::RedisSortedSet"
+SKIP = "redis::data::skiplist::SkipList"
+SCORE_STORE = r"hash_map::(OccupiedEntry|VacantEntry)::<'_, std::string::String, f64>::insert$|HashMap::<std::string::String, f64.*>::insert$"
+
+
+def _param_src(f, operand):
+    s_ = src_of_operand(f, operand, through_calls=TRANSPARENT)
+    return s_.local if s_.kind == "path" and s_.local is not None and 1 <= s_.local <= f.d["argc"] and not s_.fields else None
+
+
+def _r0114(ck, prog, cfg):
+    n = 0
+    for f in prog.lib_fns():
+        if f.impl_self != ZSET or f.kind != "method" or "test" in f.id:
+            continue
+        fparams = [i for i in range(1, f.d["argc"] + 1) if f.locals[i] == "f64"]
+        stores = [(b, t) for b, t in f.calls() if is_callee(t, SCORE_STORE) and len(t["args"]) >= 2 and _param_src(f, t["args"][-1]) in fparams]
+        if not fparams or not stores:
+            continue
+        # the `member exists` region: blocks dominated by a read of the stored score (OccupiedEntry::get / members.get)
+        reads = [(b, t) for b, t in f.calls() if is_callee(t, r"OccupiedEntry::<'_, std::string::String, f64>::get$|HashMap::<std::string::String, f64.*>::get$")]
+        for rb, rt in reads:
+            region = {x for x in f.reachable_blocks() if f.dominates(rb, x)}
+            store_blocks = {b for b, _ in stores}
+            # exits of the region reachable without storing
+            skip_exit = [x for x in f.reach([rb], avoid=store_blocks) if x in region and f.term(x)["k"] in ("return",) or
+                         (x in region and any(y not in region for y in f.succ(x)) and x not in store_blocks and x in f.reach([rb], avoid=store_blocks))]
+            if not skip_exit:
+                continue
+            k = 0
+            seen = set()
+            for x in skip_exit:
+                for sb, _ in lib2.controlling_switches(f, x):
+                    if sb not in region or sb in seen or sb == rb:
+                        continue
+                    seen.add(sb)
+                    si = switch_info(f, sb)
+                    if si is None or si["kind"] == "discr":
+                        continue
+                    n += 1
+                    src = si["src"]
+                    exact = False
+                    if src is not None and src.kind == "rv" and src.rv["k"] == "bin" and src.rv["op"] in ("Eq", "Ne"):
+                        pa, pb = _param_src(f, src.rv["a"]), _param_src(f, src.rv["b"])
+                        sa = src_of_operand(f, src.rv["a"], through_calls=TRANSPARENT)
+                        sb_ = src_of_operand(f, src.rv["b"], through_calls=TRANSPARENT)
+                        stored = [z for z in (sa, sb_) if z.kind == "call" and z.term is rt]
+                        exact = (pa in fparams or pb in fparams) and bool(stored)
+                    ck.check(exact, "R01.14", "%s:keeps-stored-score#%d%s" % (f.short, k, _tag(cfg)),
+                             "RedisSortedSet::%s can leave an existing member's stored score in place on a branch that is not an exact equality test "
+                             "between the stored and the incoming score (a tolerance or any other condition drops a real score update: the reply "
+                             "says changed/ok while ZSCORE, ZRANGEBYSCORE and the order keep the old score)" % f.short,
+                             f.where(f.term(sb)["ln"]), detail="skip decided by Eq(stored score, incoming score)")
+                    k += 1
+    ck.floor("R01.14" + _tag(cfg), n, 1)
+
+
+def _r0115(ck, prog, cfg):
+    n = 0
+    fns = [f for f in prog.lib_fns() if f.file in ("src/redis/data/skiplist.rs", "src/redis/data/sorted_set.rs") and "test" not in f.id]
+    cmps = [f for f in fns if f.kind == "method" and f.locals and f.locals[0] == "std::cmp::Ordering"
+            and [f.locals[i] for i in range(1, f.d["argc"] + 1)].count("f64") >= 2]
+    if not cmps:
+        ck.anchor_lost("R01.15", "no comparator (two f64 scores -> Ordering) found in the skiplist / sorted-set modules")
+        return
+    for f in cmps:
+        fl = [i for i in range(1, f.d["argc"] + 1) if f.locals[i] == "f64"]
+        ml = [i for i in range(1, f.d["argc"] + 1) if f.locals[i] != "f64"]
+        bodies = prog.with_children(f)
+        pc = [(g, t) for g in bodies for _, t in g.calls() if is_callee(t, r"<f64 as std::cmp::PartialOrd>::(partial_cmp|lt|le|gt|ge)$")]
+        ok_score = False
+        for g, t in pc:
+            a, b = _param_src(g, t["args"][0]), _param_src(g, t["args"][1])
+            if g is f and a == fl[0] and b == fl[1]:
+                ok_score = True
+        n += 1
+        ck.check(ok_score, "R01.15", "%s:scores-by-partial-order%s" % (f.short, _tag(cfg)),
+                 "the sorted-set comparator does not order its two scores with f64's partial order in argument order (first score against second): "
+                 "total_cmp / bit patterns separate -0.0 from 0.0 and order NaN payloads; swapped arguments reverse ZRANGE", f.where(),
+                 detail="partial_cmp(score1, score2)")
+        tie = False
+        for g in bodies:
+            for _, t in g.calls():
+                if is_callee(t, r"<(str|std::string::String|\[u8\]) as std::cmp::Ord>::cmp$"):
+                    # closure captures are fields 0,1 of the closure env in capture order = member1, member2
+                    s0 = src_of_operand(g, t["args"][0], through_calls=TRANSPARENT)
+                    s1 = src_of_operand(g, t["args"][1], through_calls=TRANSPARENT)
+                    nm = lambda z: (z.root or "") + "." + ".".join(z.fields)
+                    names_ = [x["n"] for x in f.names if x["pl"].get("l") in ml and not x["pl"].get("p")]
+                    if len(names_) >= 2 and names_[0] in nm(s0) and names_[1] in nm(s1):
+                        tie = True
+        n += 1
+        ck.check(tie, "R01.15", "%s:ties-by-member-bytes%s" % (f.short, _tag(cfg)),
+                 "the sorted-set comparator does not break a score tie with the byte order of the two members in argument order (Redis orders "
+                 "equal scores lexicographically by member)", f.where(), detail="then member1.cmp(member2)")
+    bad = []
+    for g in fns:
+        for _, t in g.calls():
+            if is_callee(t, r"f64::total_cmp$|f64::to_bits$|f64::to_ne_bytes$|f64::to_le_bytes$|f64::to_be_bytes$") and not t.get("x"):
+                bad.append((g, t))
+    n += 1
+    ck.check(not bad, "R01.15", "no-bitwise-score-order%s" % _tag(cfg),
+             "the sorted-set modules order or identify scores by bit pattern (%s): -0.0 and 0.0 are the same score in Redis and tie by member"
+             % ", ".join("%s in %s" % (callee(t).rsplit("::", 1)[-1], g.short) for g, t in bad[:3]),
+             bad[0][0].where(bad[0][1]["ln"]) if bad else None, detail="no total_cmp/to_bits in skiplist.rs / sorted_set.rs")
+    ck.floor("R01.15" + _tag(cfg), n, 3)
